@@ -336,6 +336,21 @@ class GlobalApproxTides(TidesBase):
 
         super().fixed_q_dt_changed()
 
+        # The CPL / CTL Love numbers depend on the fixed-q / fixed-dt: recalculate them at the current frequencies.
+        if self.unique_tidal_frequencies is not None:
+            if self.use_ctl:
+                self._ctl_complex_love_by_unique_freq = \
+                    ctl_neg_imk_helper_func(
+                        self.unique_tidal_frequencies, self.fixed_k2,
+                        self.ctl_calc_method, self.ctl_calc_input_getter()
+                        )
+            else:
+                self._cpl_complex_love_by_unique_freq = \
+                    cpl_neg_imk_helper_func(
+                        self.unique_tidal_frequencies, self.fixed_k2,
+                        self.fixed_q
+                        )
+
         self.collapse_modes()
 
     def clear_state(self):
